@@ -727,6 +727,28 @@ def _angles(ctx, only=None):
         except Exception as e:
             ctx.violate('angles:positional-latitude-exception', 'positional latitude argument raises %r' % (e,),
                         {'stream': 'angles', 'lat': lat, 'p': [list(q) for q in a[:3].tolist()]})
+        # history: "all angle arrays" includes an array the caller refills in place and converts again - the answer belongs to
+        # the present contents of the array, not to what the same object held at an earlier call
+        if len(p) >= 4:
+            try:
+                buf = a[:len(p) // 2].copy()
+                x1 = np.array(angles_to_x(buf, latitude=lat))
+                buf[:] = a[len(p) - len(buf):]
+                x2 = np.array(angles_to_x(buf, latitude=lat))
+                xb = x[:len(buf)].copy()
+                b1 = np.array(x_to_angles(xb, latitude=lat))
+                xb[:] = x[len(p) - len(buf):]
+                b2 = np.array(x_to_angles(xb, latitude=lat))
+                ctx.count('angles:history:refilled-array')
+                if not (np.array_equal(x1, x[:len(buf)], equal_nan=True) and np.array_equal(x2, x[len(p) - len(buf):], equal_nan=True)
+                        and np.array_equal(b1, back[:len(buf)], equal_nan=True) and np.array_equal(b2, back[len(p) - len(buf):], equal_nan=True)):
+                    k = len(p) - len(buf)
+                    ctx.violate('angles:history', 'an array refilled in place and converted again gives the conversion of its earlier contents '
+                                '(angles_to_x / x_to_angles(latitude=%s) called twice on one ndarray object)' % lat,
+                                {'stream': 'angles', 'lat': lat, 'p': [list(q) for q in a[:2].tolist()] + [list(q) for q in a[k:k + 2].tolist()], 'history': 'refill'})
+            except Exception as e:
+                ctx.violate('angles:history-exception', 'second conversion of a refilled array raises %r' % (e,),
+                            {'stream': 'angles', 'lat': lat, 'p': [list(q) for q in a[:3].tolist()], 'history': 'refill'})
         # the answer for one point must not depend on how many points are passed in one call (1..5 rows, 1-D single point)
         for nb in (1, 2, 3, 4, 5):
             for start in range(0, min(len(p), 40), nb):
